@@ -182,7 +182,8 @@ def wf_base(G, base):
     e = z3.Select(BASE.arr(base), n)
     repl = BASE_ELEM.get(e, 'replacements')
     return z3.ForAll([n], z3.Implies(z3.And(0 <= n, n < BASE.len(base)),
-                                     z3.And(RL.len(repl) >= 0,
+                                     z3.And(RL.len(repl) >= 0, T.fval(BASE_ELEM.get(e, 'prob')) >= 0,
+                                            T.fval(BASE_ELEM.get(e, 'prob')) <= 1,
                                             z3.ForAll([k], z3.Implies(z3.And(0 <= k, k < RL.len(repl)),
                                                                       z3.And(GRAMMAR.has(G, z3.Select(RL.arr(repl), k)),
                                                                              GLIST.len(glist(G, z3.Select(RL.arr(repl), k))) >= 1)),
@@ -291,10 +292,25 @@ Contract(
 )
 
 
+def item_wf(G, it):
+    pt = PTITEM.get(it, 'pt')
+    return z3.And(wf_pt(G, pt), PT.len(pt) >= 0, T.fval(PTITEM.get(it, 'base_prob')) >= 0,
+                  T.fval(PTITEM.get(it, 'base_prob')) <= 1,
+                  PTITEM.get(it, 'prob') == P(G, pt, PTITEM.get(it, 'base_prob')))
+
+
+def items_wf(G, items, n):
+    m = z3.Int('m!iw')
+    return z3.ForAll([m], z3.Implies(z3.And(0 <= m, m < n), item_wf(G, z3.Select(PTITEMS.arr(items), m))),
+                     patterns=[z3.Select(PTITEMS.arr(items), m)])
+
+
 def _init_base_inv_outer(L):
     G = g_of(L.self)
     base = L.self.fields['base'].term
-    return [('roots_prefix', V(L.pt_list) == Roots(G, base, L.i))]
+    return [('roots_prefix', V(L.pt_list) == Roots(G, base, L.i)),
+            ('len', PTITEMS.len(V(L.pt_list)) == L.i),
+            ('items_wf', items_wf(G, V(L.pt_list), L.i))]
 
 
 def _init_base_inv_inner(L):
@@ -318,7 +334,9 @@ Contract(
     requires=lambda c: [('wf_base', wf_base(g_of(c.self), c.self.fields['base'].term))],
     result=PTITEMS,
     ensures=lambda c: [('roots', V(c.result) == Roots(g_of(c.self), c.self.fields['base'].term,
-                                                       BASE.len(c.self.fields['base'].term)))],
+                                                       BASE.len(c.self.fields['base'].term))),
+                       ('len', PTITEMS.len(V(c.result)) == BASE.len(c.self.fields['base'].term)),
+                       ('items_wf', items_wf(g_of(c.self), V(c.result), PTITEMS.len(V(c.result))))],
     locals={'pt_list': PTITEMS, 'pt_item': TRec({'base_prob': TF, 'pt': PT})},
     loops={0: LoopSpec(fingerprint='for item in self.base', inv=_init_base_inv_outer),
            1: LoopSpec(fingerprint="for replacement in item['replacements']", inv=_init_base_inv_inner,
